@@ -118,7 +118,8 @@ class Serializer(pickle.Pickler):
 
 our_ids = re.compile(
     r"(mapperprop|mapper|mapper_selectable|table|column|"
-    r"session|attribute|engine):(.*)"
+    r"session|attribute|engine):(.*)",
+    re.DOTALL,
 )
 
 
